@@ -155,7 +155,7 @@ def model_deps_for_extract():
 # --------------------------------------------------------------------------
 # Rust side
 # --------------------------------------------------------------------------
-def harness_build(profile="debug", hooks=True, features=None, extra_rustflags="", timeout=1200, tag=None, hdir=None, target=None):
+def harness_build(profile="debug", hooks=True, features=None, extra_rustflags="", timeout=1200, tag=None, hdir=None, target=None, nothreads=False):
     """Build the harness against /repo's working tree. Returns (ok, exe_or_msg)."""
     if hdir is None and REPO != "/repo":
         # checks running against a copy of the repository (VERIF_REPO): point the harness at it
@@ -175,8 +175,10 @@ def harness_build(profile="debug", hooks=True, features=None, extra_rustflags=""
                 break
     tag = tag or (("hook" if hooks else "plain") + ("-" + ("_".join(features) or "none") if features is not None else "")
                   + ("-" + re.sub(r"[^a-z0-9]+", "", extra_rustflags.lower()) if extra_rustflags else ""))
+    if nothreads:
+        tag += "-nothreads"
     target = target or os.path.join(BUILD, "target-" + tag)
-    flags = (f"--cfg {GUARD} " if hooks else "") + extra_rustflags
+    flags = (f"--cfg {GUARD} " if hooks else "") + ("--cfg verif_nothreads " if nothreads else "") + extra_rustflags
     cmd = ["cargo", "build", "--offline", "--quiet"]
     if profile == "release":
         cmd.append("--release")
